@@ -130,6 +130,18 @@ func main() {
 		acc += "!"
 	}
 	o("strings", acc+btoa("a" < "b")+btoa("" < "a")+btoa("ab" < "a")+itoa(int64(len(acc))))
+	// len and cap of array-valued expressions that are not constant: the operand is evaluated
+	calls = ""
+	mkArr := func() [3]Int { calls += "m"; return [3]Int{1, 2, 3} }
+	mkPtr := func() *[4]Int { calls += "p"; return &[4]Int{} }
+	ach := make(chan [2]Int, 2)
+	ach <- [2]Int{1, 2}
+	ach <- [2]Int{3, 4}
+	la := len(mkArr()) + cap(mkArr()) + len(mkPtr()) + cap(mkPtr()) + len(<-ach) + cap(<-ach) + len([2]Int{c("x", 1), 2}) + len(s.next().args) + cap([1][2]Int{{c("y", 1), 2}}[0])
+	for range mkArr() {
+		la++
+	}
+	o("len-array", itoa(int64(la))+calls+itoa(int64(len(ach))))
 	// closures over loop variables, defers in loops
 	var fs []func() Int
 	for k := Int(0); k < 3; k++ {
